@@ -411,7 +411,8 @@ def _e1(prop, technique, level_text, rule_tail, floors, quick_h=10):
             [_e3_job(p, tier)] if p in ("C04", "C07") else []) + (
             [san_job("threads-asan", "e3", "asan", focus="C07", runs=60, scale=1),
              san_job("threads-tsan", "e3", "tsan", focus="C07", runs=40, scale=1),
-             san_job("stepper-asan", "e1", "asan", focus="C07", histories=40, steps=120)] if p == "C07" and tier == "thorough" else []) + (
+             san_job("stepper-asan", "e1", "asan", focus="C07", histories=40, steps=120),
+             miri_job("miri-memtable", "memtable", programs=8, schedules=12)] if p == "C07" and tier == "thorough" else []) + (
             [job("tamper", "c04t", shards=16, timeout=3000, cases=q(tier, 3, 60), budget=q(tier, 250, 3000))] if p == "C04" else []) + (
             [job("collector", "c05gc", shards=16, timeout=3000, max_len=q(tier, 8, 12), random=q(tier, 2000, 300000))] if p == "C05" else [])))(prop, quick_h),
         "floors": floors,
@@ -513,7 +514,8 @@ REGISTRY["C06"] = {
                        ">=1 flush; distinct = hash of the recorded stamps."),
     "assumptions": ["the linearization point of a scan lies inside the range_scan() call that created its cursor"],
     "jobs": lambda tier: [_e3_job("C06", tier)] + ([san_job("threads-tsan", "e3", "tsan", focus="C06", runs=40, scale=1),
-                                                    san_job("threads-asan", "e3", "asan", focus="C06", runs=40, scale=1)] if tier == "thorough" else []),
+                                                    san_job("threads-asan", "e3", "asan", focus="C06", runs=40, scale=1),
+                                                    miri_job("miri-memtable", "memtable", programs=8, schedules=12)] if tier == "thorough" else []),
     "floors": lambda tier: {"distinct_nontrivial": 50, "lin.operations_overlapping_another_thread": 8000,
                             "lin.rounds_checked": 1000, "ops.batch": 2000, "ops.scan": 1000, "store.flushes": 500,
                             "store.compactions": 1000},
